@@ -112,6 +112,8 @@ theorem replayChain_allwf (orig : Nat → Author) : ∀ (news : List (List Nat))
 /-- upstream commits brought in by a replay carry well-formed notes themselves -/
 def MidOK : ROp → Prop
   | .replay _ mid _ _ => AllNotesWF (mid.map (·.1)) (mid.map (·.2))
+  | .switchCarry l n _ => AllNotesWF l n
+  | .switchMerge l n _ _ => AllNotesWF l n
   | _ => True
 
 theorem rstep_allwf (r : RState) (op : ROp) (h : AllNotesWF r.st.log r.st.notes) (hm : MidOK op) :
@@ -156,6 +158,11 @@ theorem rstep_allwf (r : RState) (op : ROp) (h : AllNotesWF r.st.log r.st.notes)
       obtain ⟨l, n⟩ := ln
       exact (replayChain_allwf _ news _).append (AllNotesWF.append hm h0)
   | squash l n ys => exact h
+  | switchCarry l n hd =>
+    show AllNotesWF (switchCarry l n hd r.st).log (switchCarry l n hd r.st).notes
+    unfold switchCarry
+    split <;> exact hm
+  | switchMerge l n hd ys => exact hm
   | aborted => exact h
 
 /-- **every note is well-formed against its commit, after every operation.** -/
